@@ -276,6 +276,21 @@ fn main() {
                 .expect("exec thread died");
             println!("{}", serde_json::to_string(&log).unwrap());
         }
+        "legacy-plan" => {
+            if args.len() < 4 {
+                usage();
+            }
+            let b = std::fs::read(&args[3]).expect("cannot read plan");
+            let plan: mv::plan::Plan = serde_json::from_slice(&b).expect("plan is not JSON");
+            let v = std::thread::Builder::new()
+                .name("s212".into())
+                .stack_size(256 << 20)
+                .spawn(move || mon::c07::legacy_child(&plan))
+                .unwrap()
+                .join()
+                .expect("legacy thread died");
+            println!("{}", serde_json::to_string(&v).unwrap());
+        }
         "gen-corpus" => {
             // writes small seed inputs for the fuzz targets under <VERIF_ROOT>/corpus/<target>/
             use proptest::strategy::{Strategy, ValueTree};
